@@ -12,18 +12,25 @@ def sh(cmd, **kw):
     return p.returncode, p.stdout
 
 def main():
-    for pid in sys.argv[1:]:
+    for arg in sys.argv[1:]:
+        pid, _, only = arg.partition(":")
         src = f"/tmp/mut-{pid}-out"
-        for k in (1, 2, 3, 4, 5):
+        for k in ((int(only),) if only else (1, 2, 3, 4, 5)):
             diff = f"{src}/m{k}.diff"
-            if not os.path.exists(diff):
-                continue
             out = f"{VERIF}/seeded/{pid}-m{k}"
-            os.makedirs(out, exist_ok=True)
-            shutil.copy(diff, f"{out}/patch.diff")
+            if not os.path.exists(diff):
+                # re-run of a seed recorded earlier
+                if not os.path.exists(f"{out}/patch.diff"):
+                    continue
+            else:
+                os.makedirs(out, exist_ok=True)
+                shutil.copy(diff, f"{out}/patch.diff")
             if os.path.exists(f"{src}/m{k}_demo_test.go"):
                 shutil.copy(f"{src}/m{k}_demo_test.go", f"{out}/demonstration_test.go.txt")
             meta = {}
+            if os.path.exists(f"{out}/meta.json") and not os.path.exists(f"{src}/m{k}.json"):
+                old = json.load(open(f"{out}/meta.json"))
+                meta = {k2: old[k2] for k2 in ("files", "summary", "breaks", "why_tests_pass") if k2 in old}
             if os.path.exists(f"{src}/m{k}.json"):
                 try:
                     meta = json.load(open(f"{src}/m{k}.json"))
